@@ -121,6 +121,8 @@ pub trait Prop: Sync {
 
 // ------------------------------------------------------------ worker side
 
+static WATCHDOG_FD: std::sync::atomic::AtomicI32 = std::sync::atomic::AtomicI32::new(1);
+
 pub fn worker(
     prop: &dyn Prop,
     tier: Tier,
@@ -132,8 +134,19 @@ pub fn worker(
     crate::fmt::install_panic_hook();
     limit_memory(6 << 30);
     let units = prop.units(tier);
-    let stdout = std::io::stdout();
-    let mut out = stdout.lock();
+    // the subject may print to the process's stdout (echo of skipped standard input, diff emitter):
+    // keep the protocol on a private descriptor and send fd 1 to /dev/null
+    let proto_fd = unsafe {
+        let proto = libc::dup(1);
+        let devnull = libc::open(b"/dev/null\0".as_ptr() as *const libc::c_char, libc::O_WRONLY);
+        libc::dup2(devnull, 1);
+        proto
+    };
+    WATCHDOG_FD.store(proto_fd, std::sync::atomic::Ordering::Relaxed);
+    let mut out = unsafe {
+        use std::os::fd::FromRawFd;
+        std::fs::File::from_raw_fd(proto_fd)
+    };
     let mut sink = Sink::default();
     // watchdog: a unit that runs longer than the limit ends the worker with a
     // "timeout" marker; the master records "no verdict (time limit)" for it.
@@ -149,7 +162,10 @@ pub fn worker(
                 if cur != last.0 {
                     last = (cur, Instant::now());
                 } else if cur != 0 && last.1.elapsed().as_secs() > limit {
-                    println!("{}", json!({"t": "timeout", "i": cur - 1}));
+                    let msg = format!("{}\n", json!({"t": "timeout", "i": cur - 1}));
+                    unsafe {
+                        libc::write(WATCHDOG_FD.load(std::sync::atomic::Ordering::Relaxed), msg.as_ptr() as *const libc::c_void, msg.len());
+                    }
                     std::process::exit(3);
                 }
             }
